@@ -30,7 +30,10 @@ fn main() {
                 w.op(line);
             }
             let mut f = std::fs::File::create(&args[3]).expect("trace");
-            writeln!(f, "SCENARIO {}", args[2]).unwrap();
+            // a generated scenario carries its generator header (family, configuration) as a comment:
+            // monitors that only judge certain families see it again when the scenario is replayed
+            let header = scenario.lines().find_map(|l| l.strip_prefix("# header: ")).unwrap_or("");
+            writeln!(f, "SCENARIO {} {}", args[2], header).unwrap();
             f.write_all(w.trace.as_bytes()).unwrap();
             eprintln!("calls={} panics={}", w.calls, w.panics);
         }
@@ -54,8 +57,9 @@ fn main() {
                 let mut g = Gen::new(s, family);
                 g.run();
                 let name = format!("{family}-{i}");
-                std::fs::write(format!("{outdir}/{name}.scn"), g.ops.join("\n") + "\n").unwrap();
-                writeln!(tf, "SCENARIO {name} seed={s} cfg={:?}", g.cfg).unwrap();
+                let header = format!("seed={s} cfg={:?}", g.cfg);
+                std::fs::write(format!("{outdir}/{name}.scn"), format!("# header: {header}\n") + &g.ops.join("\n") + "\n").unwrap();
+                writeln!(tf, "SCENARIO {name} {header}").unwrap();
                 tf.write_all(g.w.trace.as_bytes()).unwrap();
                 calls += g.w.calls;
                 panics += g.w.panics;
